@@ -13,4 +13,5 @@ import GeoVerif.Ops.Proc
 import GeoVerif.Ops.Paths
 import GeoVerif.Ops.Units
 import GeoVerif.Ops.MC
+import GeoVerif.Ops.Report
 /-! Everything the driver needs (import-free models + ops). -/
